@@ -80,7 +80,7 @@ def main():
                                stdout=subprocess.PIPE, stderr=subprocess.STDOUT, text=True)
             roles = [l.split("role=", 1)[1].strip() for l in p.stdout.splitlines() if l.strip().startswith("role=")]
             inconc = [l for l in p.stdout.splitlines() if l.startswith("INCONCLUSIVE")]
-            if not m.get("edits"):
+            if not m.get("edits") and not m.get("patch"):
                 baseline[m["prop"]] = list(roles)
             new_roles = [r for r in roles if r not in baseline.get(m["prop"], [])]
             caught = all(any(r.startswith(e) for r in roles) for e in m["expect"]) and (p.returncode == 1 or not m["expect"])
